@@ -175,6 +175,82 @@ def run_case(acc, which, subj, pname, X, lab, mode, cand, bs, bound, max_tapes, 
             acc.engine_error("conformance mismatch %s: real %s vs model %s" % (rep(tp.choices, "real-seed", s), ro[0], rr[0]))
 
 
+def option_variants(subj, X, y, mode):
+    """Non-default values of the optional query parameters the strategy offers (sample weights, utility weights, a model that is already
+    fitted together with fit_*=False, ...). The validity oracles of C01 / C02 do not depend on them."""
+    import inspect
+
+    import skactiveml.pool as P
+
+    try:
+        sig = inspect.signature(getattr(P, subj.cls).query).parameters
+    except Exception:
+        return []
+    n = len(X)
+    out = []
+    base = subj.query_kwargs(X)
+    if "sample_weight" in sig and "sample_weight" not in base:
+        out.append(("sample_weight", dict(base, sample_weight=np.array([1.0, 2.0, 1.0, 2.0, 1.0, 2.0][:n]))))
+    if "utility_weight" in sig and not mode.startswith("rows"):
+        out.append(("utility_weight", dict(base, utility_weight=np.array([1.0, 0.5, 2.0, 1.0, 0.5, 2.0][:n]))))
+    for flag, key in (("fit_clf", "clf"), ("fit_reg", "reg"), ("fit_ensemble", "ensemble")):
+        if flag in sig and key in base and not isinstance(base[key], list):
+            kw = subj.query_kwargs(X)
+            try:
+                import warnings
+
+                with warnings.catch_warnings():
+                    warnings.simplefilter("ignore")
+                    kw[key] = kw[key].fit(X, y)
+                kw[flag] = False
+                out.append(("prefitted," + flag + "=False", kw))
+            except Exception:
+                pass
+    if "update" in sig:
+        out.append(("update=True", dict(base, update=True)))
+    if "X_eval" in sig:
+        out.append(("X_eval", dict(base, X_eval=X[:2].copy())))
+    return out
+
+
+def run_options(acc, which, subj, pname, X, lab, mode, cand, bs, seed0):
+    y = SP.make_y(lab, subj.task)
+    cand_arg, cand_set = PR.materialise(cand, X)
+    cset = PR.reference_candidates(lab, cand_arg, cand_set)
+    n_cols = len(X) if not mode.startswith("rows") else len(cand_arg)
+    nsel = subj.n_selectable(len(cset))
+    for oname, kw in option_variants(subj, X, y, mode):
+        key = (subj.name, pname, lab, mode, None if cand is None else repr(cand), bs, oname)
+        acc.case(key)
+        preds = dict(preds_of(subj, X, lab, mode, cset, bs), option=oname)
+        wit = {"subject": subj.name, "pool": pname, "X": X.tolist(), "labels": list(lab), "cand_mode": mode, "option": oname,
+               "candidates": None if cand is None else (cand if not isinstance(cand, tuple) else list(cand)), "batch_size": bs}
+        rep = {"subject": subj.name, "pool": pname, "labels": list(lab), "mode": mode, "option": oname,
+               "cand": None if cand is None else (list(cand) if isinstance(cand, tuple) else cand), "bs": bs, "tape": [], "how": "option", "seed": seed0,
+               "which": which}
+        size = case_size(lab, cset, bs, []) + 3
+        for how, out in (("default tape", PR.run_query(subj, X, y, cand_arg, bs, T.Tape(), "substitute", return_utilities=True, kw=dict(kw))),
+                         ("real seed", PR.run_query(subj, X, y, cand_arg, bs, T.Tape(), "observe", return_utilities=True, seed=seed0, kw=dict(kw)))):
+            acc.transitions += 1
+            if out[0] == "timeout":
+                acc.violation(subj.name, "no_result_within_horizon", str(out[1]), wit, preds, rep, size)
+                continue
+            if out[0] == "exc":
+                if is_rejection(subj, out[1], mode, lab, bs):
+                    acc.reject(is_rejection(subj, out[1], mode, lab, bs))
+                elif which == "C01":
+                    acc.violation(subj.name, "exception:" + type(out[1]).__name__, "%s: %s [option %s]" % (type(out[1]).__name__, str(out[1])[:300], oname),
+                                  wit, dict(preds, exc=str(out[1])[:80]), rep, size)
+                continue
+            _, idx, utils = out
+            v = PR.judge_c01(idx, cset, bs, nsel) if which == "C01" else PR.judge_c02(idx, utils, cset, bs, n_cols, subj.select)
+            p2 = dict(preds, **PR.output_preds(utils, cset, n_cols)) if v else preds
+            for kind, detail in v:
+                acc.violation(subj.name, kind, "%s [option %s, %s]" % (detail, oname, how), wit, p2, rep, size)
+            acc.traces_validated += 1
+            acc.outcome((key, tuple(int(x) for x in np.asarray(idx).ravel()) if np.asarray(idx).dtype.kind in "iu" else repr(idx)))
+
+
 def run_shard(spec, which):
     T.install()
     t0 = time.process_time()
@@ -195,6 +271,8 @@ def run_shard(spec, which):
                     continue
                 run_case(acc, which, subj, pname, X, lab, mode, cand, bs, b["deviation_bound"], b["max_tapes_per_case"],
                          b["conformance_seeds"], spec["seed"] * 100, extra=(i % b["extra_every"] == 0))
+                if i % b["extra_every"] == 0 or spec["tier"] == "thorough":
+                    run_options(acc, which, subj, pname, X, lab, mode, cand, bs, spec["seed"] * 100)
                 if i % 211 == 0:
                     acc.sample({"subject": subj.name, "pool": pname, "labels": list(lab), "cand_mode": mode,
                                 "candidates": None if cand is None else repr(cand), "batch_size": bs}, limit=1)
@@ -215,6 +293,9 @@ def replay(spec):
     elif cand is not None:
         cand = [int(i) for i in cand]
     b = tier_bounds("thorough")
+    if spec.get("option"):
+        run_options(acc, spec["which"], subj, spec["pool"], X, lab, spec["mode"], cand, int(spec["bs"]), int(spec.get("seed", 0)))
+        return [(s, k) for (s, k, _p) in acc.groups]
     run_case(acc, spec["which"], subj, spec["pool"], X, lab, spec["mode"], cand, int(spec["bs"]), 2, 400, 1, int(spec.get("seed", 0)))
     return [(s, k) for (s, k, _p) in acc.groups]
 
@@ -228,5 +309,8 @@ def bounds(tier):
         "non-empty subset); for strategies that score samples independently also index sets containing labeled samples; feature rows of the " \
         "unlabeled samples, and the same plus one foreign row"
     b["batch_sizes"] = "1..min(n_candidates+1, max_batch)"
+    b["query_options"] = "on every extra_every-th case (thorough: every case) the query is repeated with each non-default optional argument the " \
+        "strategy offers: sample_weight, utility_weight, an already fitted model with fit_clf/fit_reg/fit_ensemble=False, update=True, X_eval " \
+        "(default tape and one real seed each)"
     b["pool_data"] = {p: SP.POOLS[p] for p in b["pools"]}
     return b
